@@ -6,12 +6,14 @@ import (
 	"fmt"
 	"math/rand"
 	"net/netip"
+	"runtime"
 	"sort"
 	"testing"
 	"testing/synctest"
 	"time"
 
 	"github.com/mdlayher/corerad/internal/config"
+	"github.com/mdlayher/corerad/internal/netstate"
 	"github.com/mdlayher/corerad/internal/plugin"
 	"github.com/mdlayher/corerad/internal/verifh"
 )
@@ -29,60 +31,81 @@ type advScenario struct {
 	Offset      int64 // virtual ns before Run starts (varies the PRNG seeds)
 	Events      []advEvent
 	Horizon     int64 // ns after t0
+	ReinitAt    int64 // > 0: a link event reinitializes the advertiser at this instant (ns after t0)
+	Burst       bool  // deliver all events back to back on one P: the request channel really fills
 	Tags        []string
 }
 
-// runAdvScenario runs the real Advertiser.Run in a bubble and renders the Corr.AdvRun case.
-func runAdvScenario(t *testing.T, sc advScenario) verifh.Case {
-	var (
-		obs                 []vWrite
-		t0                  int64
-		loopDraws, uniDraws []int64
-		cntUni, cntMulti    float64
-		cntRS               float64
-	)
+// advIncarnation is what one incarnation (initial RA .. reinitialization / horizon) looked like.
+type advIncarnation struct {
+	t0, horizon       int64
+	events            []advEvent // At relative to the first incarnation's t0
+	obs               []vWrite
+	uni, multi, rsCnt float64
+	seed              int64
+}
+
+// runAdvScenario runs the real Advertiser.Run in a bubble and renders one Corr.AdvRun case per incarnation.
+func runAdvScenario(t *testing.T, sc advScenario) []verifh.Case {
+	var incs []advIncarnation
+	if sc.Burst {
+		defer runtime.GOMAXPROCS(runtime.GOMAXPROCS(1))
+	}
 	synctest.Test(t, func(t *testing.T) {
 		time.Sleep(time.Duration(sc.Offset))
 		cfg := config.Interface{Name: "v0", Advertise: true, UnicastOnly: sc.UnicastOnly,
 			MinInterval: sc.Min, MaxInterval: sc.Max, HopLimit: 64, DefaultLifetime: 1800 * time.Second,
 			Plugins: []plugin.Plugin{&plugin.LLA{}}}
-		v := newVAdvertiser(cfg, func() bool { return false })
-		seed := time.Now().UnixNano()
-		t0 = vNow()
+		watchC := make(chan netstate.Change, 1)
+		v := newVAdvertiserW(cfg, func() bool { return false }, watchC)
+		counters := func() (float64, float64, float64) {
+			return metricVal(v.mm, "corerad_advertiser_router_advertisements_total", "interface=v0,type=unicast"),
+				metricVal(v.mm, "corerad_advertiser_router_advertisements_total", "interface=v0,type=multicast"),
+				metricVal(v.mm, "corerad_advertiser_messages_received_total", "interface=v0,message=router solicitation")
+		}
+		t00 := vNow()
 		cancel, done := v.run()
 		start := time.Now()
-		for _, e := range sc.Events {
-			time.Sleep(time.Until(start.Add(time.Duration(e.At))))
-			v.conn.readC <- rs(e.Src)
+		cur := advIncarnation{t0: t00, seed: start.UnixNano()}
+		var bu, bm, br float64 // counters at the start of the current incarnation
+		closeInc := func(hz int64) {
 			synctest.Wait()
+			cur.horizon = hz
+			cur.obs = v.cur().snapshot()
+			u, m, r := counters()
+			cur.uni, cur.multi, cur.rsCnt = u-bu, m-bm, r-br
+			bu, bm, br = u, m, r
+			incs = append(incs, cur)
+		}
+		for _, e := range sc.Events {
+			if sc.ReinitAt > 0 && len(incs) == 0 && e.At >= sc.ReinitAt {
+				time.Sleep(time.Until(start.Add(time.Duration(sc.ReinitAt) - 1)))
+				closeInc(t00 + sc.ReinitAt)
+				time.Sleep(1)
+				watchC <- netstate.LinkDown
+				synctest.Wait()
+				cur = advIncarnation{t0: vNow(), seed: time.Now().UnixNano()}
+			}
+			time.Sleep(time.Until(start.Add(time.Duration(e.At))))
+			v.cur().readC <- rs(e.Src)
+			cur.events = append(cur.events, e)
+			if !sc.Burst {
+				synctest.Wait()
+			}
+		}
+		if sc.ReinitAt > 0 && len(incs) == 0 {
+			time.Sleep(time.Until(start.Add(time.Duration(sc.ReinitAt) - 1)))
+			closeInc(t00 + sc.ReinitAt)
+			time.Sleep(1)
+			watchC <- netstate.LinkDown
+			synctest.Wait()
+			cur = advIncarnation{t0: vNow(), seed: time.Now().UnixNano()}
 		}
 		time.Sleep(time.Until(start.Add(time.Duration(sc.Horizon) - 1)))
-		synctest.Wait()
-		obs = v.conn.snapshot()
-		cntUni = metricVal(v.mm, "corerad_advertiser_router_advertisements_total", "interface=v0,type=unicast")
-		cntMulti = metricVal(v.mm, "corerad_advertiser_router_advertisements_total", "interface=v0,type=multicast")
-		cntRS = metricVal(v.mm, "corerad_advertiser_messages_received_total", "interface=v0,message=router solicitation")
+		closeInc(t00 + sc.Horizon)
 		cancel()
 		if err := <-done; err != nil {
 			t.Errorf("%s: Run returned %v", sc.ID, err)
-		}
-		// reproduce the PRNG draws: both generators are seeded with the (virtual) start instant
-		if sc.Min != sc.Max && !sc.UnicastOnly {
-			p := rand.New(rand.NewSource(seed))
-			n := int(sc.Horizon/int64(sc.Min)) + 8
-			for i := 0; i < n; i++ {
-				loopDraws = append(loopDraws, p.Int63n(sc.Max.Nanoseconds()-sc.Min.Nanoseconds()))
-			}
-		} else if !sc.UnicastOnly {
-			for i := 0; i < int(sc.Horizon/int64(sc.Min))+8; i++ {
-				loopDraws = append(loopDraws, 0)
-			}
-		}
-		p := rand.New(rand.NewSource(seed))
-		for _, e := range sc.Events {
-			if e.Src != "::" {
-				uniDraws = append(uniDraws, p.Int63n(maxRADelay.Nanoseconds()))
-			}
 		}
 	})
 
@@ -93,32 +116,56 @@ func runAdvScenario(t *testing.T, sc advScenario) verifh.Case {
 		}
 		return verifh.List(ss)
 	}
-	var evs []string
-	k := 0
-	for _, e := range sc.Events {
-		if e.Src == "::" {
-			evs = append(evs, verifh.Pair(verifh.Z(t0+e.At), "ReqMulti"))
-		} else {
-			evs = append(evs, verifh.Pair(verifh.Z(t0+e.At), verifh.App("ReqUni", verifh.AddrN(netip.MustParseAddr(e.Src)), verifh.Z(uniDraws[k]))))
-			k++
+	t00 := incs[0].t0
+	var cases []verifh.Case
+	for k, inc := range incs {
+		// reproduce the PRNG draws: both generators are seeded with the (virtual) start instant of the incarnation
+		var loopDraws []int64
+		n := int((inc.horizon-inc.t0)/int64(sc.Min)) + 8
+		if !sc.UnicastOnly {
+			p := rand.New(rand.NewSource(inc.seed))
+			for i := 0; i < n; i++ {
+				if sc.Min != sc.Max {
+					loopDraws = append(loopDraws, p.Int63n(sc.Max.Nanoseconds()-sc.Min.Nanoseconds()))
+				} else {
+					loopDraws = append(loopDraws, 0)
+				}
+			}
 		}
+		p := rand.New(rand.NewSource(inc.seed))
+		var evs []string
+		for _, e := range inc.events {
+			if e.Src == "::" {
+				evs = append(evs, verifh.Pair(verifh.Z(t00+e.At), "ReqMulti"))
+			} else {
+				evs = append(evs, verifh.Pair(verifh.Z(t00+e.At), verifh.App("ReqUni", verifh.AddrN(netip.MustParseAddr(e.Src)), verifh.Z(p.Int63n(maxRADelay.Nanoseconds())))))
+			}
+		}
+		obs := inc.obs
+		sort.SliceStable(obs, func(i, j int) bool { return obs[i].Begin < obs[j].Begin })
+		var os []string
+		var oj [][2]string
+		for _, w := range obs {
+			os = append(os, verifh.Pair(verifh.Z(w.Begin), verifh.AddrN(w.Dst)))
+			oj = append(oj, [2]string{fmt.Sprintf("%.9f", float64(w.Begin-t00)/1e9), w.Dst.String()})
+		}
+		id := sc.ID
+		tags := append([]string(nil), sc.Tags...)
+		if len(incs) > 1 {
+			id = fmt.Sprintf("%s#%d", sc.ID, k)
+			tags = append(tags, fmt.Sprintf("incarnation:%d", k))
+		}
+		cases = append(cases, verifh.Case{
+			ID: id,
+			Coq: verifh.App("mkRun", verifh.B(sc.UnicastOnly), verifh.Z(int64(sc.Min)), verifh.Z(int64(sc.Max)), verifh.Z(inc.t0),
+				zs(loopDraws), verifh.List(evs), verifh.Z(inc.horizon), verifh.List(os),
+				verifh.Z(int64(inc.uni)), verifh.Z(int64(inc.multi)), verifh.Z(int64(inc.rsCnt))),
+			Input:    map[string]any{"scenario": sc, "incarnation": k, "Events": inc.events, "Min": int64(sc.Min)},
+			Observed: oj,
+			Tags:     tags,
+		})
 	}
-	sort.SliceStable(obs, func(i, j int) bool { return obs[i].Begin < obs[j].Begin })
-	var os []string
-	var oj [][2]string
-	for _, w := range obs {
-		os = append(os, verifh.Pair(verifh.Z(w.Begin), verifh.AddrN(w.Dst)))
-		oj = append(oj, [2]string{fmt.Sprintf("%.9f", float64(w.Begin-t0)/1e9), w.Dst.String()})
-	}
-	return verifh.Case{
-		ID: sc.ID,
-		Coq: verifh.App("mkRun", verifh.B(sc.UnicastOnly), verifh.Z(int64(sc.Min)), verifh.Z(int64(sc.Max)), verifh.Z(t0),
-			zs(loopDraws), verifh.List(evs), verifh.Z(t0+sc.Horizon), verifh.List(os),
-			verifh.Z(int64(cntUni)), verifh.Z(int64(cntMulti)), verifh.Z(int64(cntRS))),
-		Input:    sc,
-		Observed: oj,
-		Tags:     sc.Tags,
-	}
+	return cases
 }
 
 var advSources = []string{"::", "::", "fe80::2", "fe80::3", "2001:db8::5", "fe80::2"}
@@ -131,8 +178,11 @@ func TestVerifAdvRun(t *testing.T) {
 	r := verifh.NewRand(verifh.Seed(), "AdvRun")
 	thorough := verifh.Thorough()
 	emit := func(sc advScenario) {
-		if out.Wants(sc.ID) {
-			out.Emit(runAdvScenario(t, sc))
+		if !out.Wants(sc.ID) && !out.Wants(sc.ID+"#0") && !out.Wants(sc.ID+"#1") {
+			return
+		}
+		for _, c := range runAdvScenario(t, sc) {
+			out.Emit(c)
 		}
 	}
 
@@ -210,6 +260,31 @@ func TestVerifAdvRun(t *testing.T) {
 			evs = append(evs, advEvent{At: 5e9 + int64(j), Src: verifh.Pick(r, advSources)})
 		}
 		emit(advScenario{ID: fmt.Sprintf("flood-%d", k), Min: 3 * time.Second, Max: 4 * time.Second, Offset: int64(k) * 1e9,
-			Events: evs, Horizon: 15e9, Tags: []string{"stream:flood"}})
+			Events: evs, Horizon: 15e9, Burst: true, Tags: []string{"stream:flood"}})
+	}
+	// (d) reinitialization (a link event) in the middle of a run: the second incarnation starts over
+	// from its own initial RA (rate limit, loop index, PRNG seeds)
+	nre := 40
+	if thorough {
+		nre = 600
+	}
+	for k := 0; k < nre; k++ {
+		iv := verifh.Pick(r, ivs[:4])
+		re := int64(4e9) + r.Int63n(20e9)
+		hz := re + int64(8e9) + r.Int63n(20e9)
+		var evs []advEvent
+		at := int64(0)
+		for nev := r.Intn(12); nev > 0; nev-- {
+			at += verifh.Pick(r, grid) + r.Int63n(4e9)
+			if at >= hz-600e6 {
+				break
+			}
+			if at > re-600e6 && at < re+2 {
+				continue
+			}
+			evs = append(evs, advEvent{At: at + 1, Src: verifh.Pick(r, advSources)})
+		}
+		emit(advScenario{ID: fmt.Sprintf("reinit-%d", k), Min: iv[0], Max: iv[1], Offset: r.Int63n(86400e9), Events: evs,
+			Horizon: hz, ReinitAt: re, Tags: []string{"stream:reinit"}})
 	}
 }
